@@ -120,8 +120,8 @@ def _direct_nodes(inp, part):
     nd = Node(nid, inp.int("ntype", -big, big), VERSION_TEXTS[inp.pick("nver", 2)] if thorough else "2.2",
               sketch_name=inp.str("sn", L), sketch_version="1.0",
               battery_level=inp.int("battery", 0, 100), heartbeat=inp.int("heartbeat", -big, big), sleeping=inp.bool("sleeping"))
-    nch = inp.pick("nch", 3 if thorough else 2)
-    L2 = 1 if thorough else L  # thorough: two children, shorter strings inside them
+    nch = inp.pick("nch", 2)
+    L2 = L
     vtypes = [0, 49, -1, 2 ** 33]
     for j in range(nch):
         cid = [254, 0][j]
